@@ -128,6 +128,9 @@ def check_invariants(case, res, attrs, n_before, cent_before, d, n, W, H):
 
 def check_case(case, res):
     from tools.force.fruchterman_reingold import fruchterman_reingold_layout, force_algorithm
+    if case.get('kind') == 'hashbatch':
+        check_hashbatch(case, res)
+        return
     W, H = case['die']
     attrs = dict(kinds=sorted({k for k, _ in case['mods']}), algo=case['algo'], max_iter=case['max_iter'])
     reset_frame_state()
@@ -160,9 +163,15 @@ def check_case(case, res):
                 res.violation('wire-length-stale', case, attrs, wl_own, wl)
         except Exception as e:  # noqa
             res.violation('wire-length-stale', case, attrs, wl_own, f'{type(e).__name__}: {e}')
-    # ---- determinism: an identically built input gives bit-identical centres
+    # ---- determinism: an identically built input gives bit-identical centres -- also when an unrelated design in other
+    #      units (300 times larger: within the factor 1000 of C20) was constructed between building the input and relocating it
     reset_frame_state()
     d2, n2 = build(case)
+    from frame.die.die import Die as _Die
+    from frame.netlist.netlist import Netlist as _Netlist
+    _other = _Netlist({'Modules': {'X': {'area': 900.0 * W * H, 'center': [150.0 * W, 150.0 * H]},
+                                   'Y': {'fixed': True, 'rectangles': [[30.0 * W, 30.0 * H, 60.0 * W, 60.0 * H]]}}, 'Nets': [['X', 'Y']]})
+    _Die(f'{300 * W}x{300 * H}', _other)
     if case['algo'] == 'layout':
         out2, _ = fruchterman_reingold_layout(d2, case['kappa'], max_iter=case['max_iter'])
     else:
@@ -192,6 +201,58 @@ def check_case(case, res):
                           got)
     moved = any(c0 != c1 for m, c0, c1 in zip(n.modules, cent_before, got) if not m.is_fixed)
     res.case('moved' if moved else 'static', nontrivial=moved)
+
+
+def layout_centres(case):
+    """the centres the relocation returns for a case (used by the hash-seed runs)"""
+    from tools.force.fruchterman_reingold import fruchterman_reingold_layout, force_algorithm
+    reset_frame_state()
+    d, n = build(case)
+    if case['algo'] == 'layout':
+        out, _ = fruchterman_reingold_layout(d, case['kappa'], max_iter=case['max_iter'])
+    else:
+        out, _ = force_algorithm(d, max_iter=case['max_iter'])
+    return centres(out.netlist)
+
+
+HASH_SEEDS = (1, 2, 3)
+_HASH_CODE = ("import sys, json; sys.path.insert(0, %r); from mc import engine; engine.bind_repo(%r); "
+              "from mc.props import c13; cases = json.load(sys.stdin); "
+              "print('RESULT ' + json.dumps([c13.layout_centres(c) for c in cases]))")
+
+
+def check_hashbatch(case, res):
+    """'It is deterministic': the same input relocated in interpreters started with different string-hash seeds (the
+    environment's answer to PYTHONHASHSEED; the module objects hash by name) gives bit-identical centres"""
+    import json, os, subprocess
+    from mc import engine
+    repo = engine._BOUND['repo']
+    base = [[None if c is None else list(c) for c in layout_centres(c)] for c in case['cases']]
+    for seed in HASH_SEEDS:
+        env = dict(os.environ, PYTHONHASHSEED=str(seed), PYTHONDONTWRITEBYTECODE='1')
+        p = subprocess.run([engine.PY, '-c', _HASH_CODE % (engine.VERIF, repo)], input=json.dumps(case['cases']), capture_output=True,
+                           text=True, env=env, timeout=3600)
+        line = [l for l in p.stdout.splitlines() if l.startswith('RESULT ')]
+        if not line:
+            raise RuntimeError(f'C13 hash-seed run produced no result (rc={p.returncode}): {p.stderr[-400:]}')
+        got = json.loads(line[-1][7:])
+        for sub, b, g in zip(case['cases'], base, got):
+            if b != g:
+                res.violation('deterministic', dict(kind='hashbatch', cases=[sub]), dict(hash_seed=seed, algo=sub['algo'], max_iter=sub['max_iter']),
+                              b, g)
+        res.case('hash-seed-run', nontrivial=True)
+
+
+def cases_hash(W, H):
+    """nets of three and four pins, coincident modules of equal area in the same nets (rounding differences are amplified)"""
+    out = []
+    for pos in ([(0.5, 0.5), (0.5, 0.5), (0.25, 0.75), (1, 0)], [(0, 0), (0, 0), (1, 1), (0.5, 0)], [(0.3, 0.3), (0.3, 0.3), (0.3, 0.3), (0.9, 0.1)]):
+        for kinds in (['soft', 'soft', 'soft', 'term'], ['big', 'big', 'soft', 'fterm'], ['soft', 'soft', 'term', 'fixed']):
+            for nets in ([[[0, 1, 2], 1], [[0, 1, 3], 2.5]], [[[0, 1, 2, 3], 1]], [[[3, 2, 1, 0], 1], [[0, 2], 2]]):
+                for (kappa, it) in ((1.0, 5), (0.4, 20), (1.5, 50)):
+                    out.append(dict(die=[W, H], mods=[[k, list(p_) if k != 'fixed' else [0.75, 0.25]] for k, p_ in zip(kinds, pos)], nets=nets, algo='layout', kappa=kappa, max_iter=it))
+                out.append(dict(die=[W, H], mods=[[k, list(p_) if k != 'fixed' else [0.75, 0.25]] for k, p_ in zip(kinds, pos)], nets=nets, algo='force', kappa=None, max_iter=5))
+    return out
 
 
 def cases_n2(W, H, params, lattice_a, lattice_b):
@@ -243,6 +304,7 @@ def shards(tier):
         for part in range(4):
             out.append(dict(kind='n3', die=die, part=part))
         out.append(dict(kind='force', die=die))
+        out.append(dict(kind='hash', die=die))
     return out
 
 
@@ -253,6 +315,11 @@ def run_shard(shard, tier, res):
         gen = cases_n2(W, H, params, [LATTICE[shard['part']]], LATTICE)
     elif shard['kind'] == 'n3':
         gen = (c for i, c in enumerate(cases_n3(W, H, params[:3] + params[5:7])) if i % 4 == shard['part'])
+    elif shard['kind'] == 'hash':
+        batch = dict(kind='hashbatch', cases=cases_hash(W, H))
+        check_case(batch, res)
+        res.samples.append(dict(kind='hashbatch', cases=batch['cases'][:2]))
+        return
     else:
         gen = cases_force(W, H)
     last = None
